@@ -66,7 +66,8 @@ class Lexer(object):
 
     @TOKEN(r"[\r\n]+")
     def t_newline(self, t):
-        t.lexer.lineno += len(t.value)
+        # "\r\n" is a single line break
+        t.lexer.lineno += len(t.value) - t.value.count("\r\n")
 
     def t_error(self, t):
         raise SyntaxError("Illegal character {0} at position {1}".format(t.value[0], t.lexpos))
